@@ -27,6 +27,10 @@ type c18Case struct {
 	Keywords int     `json:"keywords"`
 	Shipped  string  `json:"shipped,omitempty"` // path below /repo of a shipped grammar, instead of C30
 	Procs    bool    `json:"procs"`
+	// Target "cc" / "ts": the same grammar generated for another target language (generation
+	// only); "cc" gives every nonterminal one of five C++ types and sets variantStackEntry, so
+	// that the cast tables of the C++ parser are exercised.
+	Target string `json:"target,omitempty"`
 }
 
 var c18Shipped = []string{"parsers/js/js.tm", "parsers/tm/textmapper.tm", "parsers/json/json.tm", "parsers/test/test.tm", "parsers/simple/simple.tm"}
@@ -36,13 +40,51 @@ func c18Gen(t *rapid.T) c18Case {
 		return c18Case{Shipped: c18Shipped[rapid.IntRange(0, len(c18Shipped)-1).Draw(t, "which")], Procs: rapid.IntRange(0, 3).Draw(t, "procs") == 0}
 	}
 	c := c18Case{C30: c30Gen(t), Keywords: rapid.IntRange(0, 12).Draw(t, "keywords"), Procs: rapid.IntRange(0, 5).Draw(t, "procs") == 0}
+	switch rapid.IntRange(0, 9).Draw(t, "target") {
+	case 0, 1:
+		c.Target, c.Keywords = "cc", 0
+	case 2:
+		c.Target, c.Keywords = "ts", 0
+	}
 	return c
+}
+
+// otherTarget rewrites the Go grammar of the case for the cc / ts templates.
+func (c *c18Case) otherTarget() string {
+	c17 := c.C30.C17
+	opts := map[string]string{}
+	for _, k := range []string{"optimizeTables", "eventBased", "defaultReduce"} {
+		if v, ok := c17.Opts[k]; ok {
+			opts[k] = v
+		}
+	}
+	if c.Target == "cc" {
+		opts["namespace"] = `"g"`
+		opts["variantStackEntry"] = "true"
+		types := []string{"int", "double", "bool", "std::string", "char"}
+		for i, nt := range c17.G.NTs {
+			name := nt.Name
+			if nn, ok := c17.Names[name]; ok {
+				name = nn
+			}
+			opts["__ntType:"+name] = " {" + types[(i*3+len(nt.Alts))%len(types)] + "}"
+		}
+		opts["__termType"] = " {int}"
+	}
+	c17.Opts = opts
+	c17.Inject = false
+	src := c17.render("g")
+	src = strings.Replace(src, "package = \"scratch/g\"\n", "", 1) // a Go-only option
+	return strings.Replace(src, "language g(go);", "language g("+c.Target+");", 1)
 }
 
 func (c *c18Case) source() (name, text string, err error) {
 	if c.Shipped != "" {
 		data, err := os.ReadFile(filepath.Join("/repo", c.Shipped))
 		return filepath.Join("/repo", c.Shipped), string(data), err
+	}
+	if c.Target != "" {
+		return "g.tm", c.otherTarget(), nil
 	}
 	cc := c.C30
 	if c.Keywords > 0 {
@@ -161,8 +203,14 @@ func c18Check(c c18Case, r *ev.Recorder) *Failure {
 	h1, f1, err := c18Generate(name, text)
 	r.Eval(1)
 	if err != nil {
-		r.Excluded("not-accepted")
+		r.Excluded("not-accepted" + map[bool]string{true: ":" + c.Target, false: ""}[c.Target != ""])
+		if os.Getenv("VERIF_DEBUG") != "" && c.Target != "" {
+			fmt.Printf("C18 %s not accepted: %v\n", c.Target, oneLine(err.Error(), 200))
+		}
 		return nil
+	}
+	if c.Target != "" {
+		r.Class("target:" + c.Target)
 	}
 	h2, f2, err := c18Generate(name, text)
 	r.Eval(1)
